@@ -230,7 +230,66 @@ def ops02 : List (String × Op) := [
       | .inl p => exceptJ (fun o => tag "dense" (denseJ o)) p.full
       | .inr ps => exceptJ (fun o => tag "dense" (denseJ o)) (ML.Sumtensor.full ps)
     let D := holderDen X
-    .ok (both model (tag "dense" (denseJ (Den.tab D)))))
+    .ok (both model (tag "dense" (denseJ (Den.tab D))))),
+  ("c02_mask", fun j => do
+    let K ← field j "X" >>= asKtensor
+    let W ← field j "W" >>= asPart
+    let (wshape, wsubs) : List Nat × List (List Nat) := match W with
+      | .dense t => (t.shape, t.find.1)
+      | .sparse s => (s.shape, s.subs)
+      | _ => ([], [])
+    let spec := ratsJ (wsubs.map K.get)
+    .ok (both (exceptJ ratsJ (K.mask wshape wsubs)) spec)),
+  ("c02_reconstruct", fun j => do
+    let T ← field j "X" >>= asTtensor
+    let asSample (sj : Json) : R (ReconSample Rat) :=
+      match fieldOpt sj "idx" with
+      | some l => do let v ← asNats l; .ok (.idx v)
+      | none => do let m ← asMatArg sj; .ok (.mat m)
+    let samples ← match fieldOpt j "samples" with
+      | none => pure none
+      | some v => do let l ← asList asSample v; pure (some l)
+    let modes ← optNats j "modes"
+    -- spec side: the sampled modes with their selection / mixing matrices, chosen by the harness
+    let sel ← field j "sel" >>= asNats
+    let ssel ← field j "ssel" >>= asList asSample
+    let D := holderDen (.inl (.tucker T))
+    let ent (d a b : Nat) : Rat :=
+      match ssel.getD (sel.idxOf d) (.idx []) with
+      | .idx l => if l.getD a 0 == b then 1 else 0
+      | .mat M => M.rows.get a b
+    let outShape := (List.range D.shape.length).map fun d =>
+      if sel.contains d then
+        match ssel.getD (sel.idxOf d) (.idx []) with
+        | .idx l => l.length
+        | .mat M => M.m
+      else D.shape.getD d 0
+    let spec := specTab outShape (Spec.ttm D sel ent)
+    .ok (both (exceptJ (fun o => tag "dense" (denseJ o)) (T.reconstruct samples modes)) spec)),
+  ("c02_tucker_sp", fun j => do
+    -- Tucker tensor with a sparse core: `full` (what = "full") or `ttv`
+    let Xj ← field j "X"
+    let core ← field Xj "core" >>= asSparse
+    let fs ← field Xj "factors" >>= asList asRatMat
+    let T : TtensorS Rat := ⟨core, fs⟩
+    let Xd ← field j "Xd" >>= asTtensor        -- the same object with the core expanded (spec side)
+    let D := holderDen (.inl (.tucker Xd))
+    let what ← field j "what" >>= asStr
+    if what == "full" then
+      .ok (both (exceptJ (fun o => tag "dense" (denseJ o)) T.full) (tag "dense" (denseJ (Den.tab D))))
+    else do
+      let vs ← field j "vs" >>= asList asRats
+      let dims ← optInts j "dims"
+      let excl ← optInts j "excl"
+      let sel ← field j "sel" >>= asNats
+      let ws ← field j "ws" >>= asList asRats
+      let tuckerAnyJ : TuckerAny Rat → Json
+        | .denseCore t => Json.mkObj [("kind", Json.str "tucker"), ("core", tag "dense" (denseJ t.core)),
+                                      ("factors", listJ ratMatJ t.factors)]
+        | .sparseCore t => Json.mkObj [("kind", Json.str "tucker"), ("core", tag "sparse" (sparseJ t.core)),
+                                       ("factors", listJ ratMatJ t.factors)]
+      let spec := specTab (Spec.ttvShape D.shape sel) (Spec.ttv D sel (vecAt sel ws))
+      .ok (both (exceptJ (sorJ tuckerAnyJ) (T.ttv vs dims excl)) spec))
 ]
 
 end Pyttb.Driver
